@@ -495,3 +495,82 @@ def mon_c14(h, outs):
                               "Locate(%s, offset=%s, max=%s) returned %s, specification says %s"
                               % (it["attrs"], it.get("offset"), it.get("max"), got, exp), i))
     return fails
+
+
+# ------------------------------------------------------------------ C05 (histories: interleavings and restarts)
+MUTATORS = ("activate", "revoke", "destroy", "setAttribute", "modifyAttribute", "deleteAttribute")
+CREATORS = ("create", "register", "deriveKey", "createKeyPair")
+
+
+def _supplied(tmpl):
+    """names / groups / application-specific information supplied in a template, in order"""
+    names, groups, appinfo = [], [], []
+    for a in (tmpl or {}).get("attrs", []):
+        v = a["value"]
+        if a["name"] == "Name" and v.get("k") == "name":
+            names.append(v["v"])
+        elif a["name"] == "Object Group" and v.get("k") == "text":
+            groups.append(v["v"])
+        elif a["name"] == "Application Specific Information" and v.get("k") == "appinfo":
+            appinfo.append([v["ns"], v["d"]])
+    return names, groups, appinfo
+
+
+def mon_c05(h, outs):
+    """A stored object stays exactly as stored at any later time: between two store dumps (a request, possibly
+    an engine restart in between) an object differs only if a successful item of that request addressed it with
+    an operation that changes objects; its value, type, format and creation date never change; a new object
+    carries exactly the names, groups and application-specific information supplied when it was made."""
+    fails = []
+    for i, j, o, before, after, pol in iter_requests(h, outs):
+        if before is None or after is None:
+            continue
+        b, a = by_uid(before), by_uid(after)
+        items = j["req"]["items"]
+        results = o.get("results") or []
+        touched, made = set(), {}
+        for k, (it, r) in enumerate(zip(items, results)):
+            if r.get("status") != "ok":
+                continue
+            if it["op"] in MUTATORS:
+                u = it.get("uid")
+                touched.add(str(u) if u is not None else str(batch_placeholder(items, results, k)))
+            d = r.get("data") or {}
+            if it["op"] in ("create", "register", "deriveKey") and d.get("uid") is not None:
+                made[str(d["uid"])] = it.get("tmpl")
+            elif it["op"] == "createKeyPair":
+                for side in ("pub", "priv"):
+                    if d.get(side) is not None:
+                        # attributes of the specific template replace same-named ones of the common template
+                        own = (it.get(side) or {}).get("attrs", [])
+                        own_names = set(x["name"] for x in own)
+                        made[str(d[side])] = {"attrs": [x for x in (it.get("common") or {}).get("attrs", [])
+                                                        if x["name"] not in own_names] + own,
+                                              "tnames": max((it.get(t) or {}).get("tnames", 0) for t in ("common", side))}
+        for u, ob in b.items():
+            if u not in a:
+                if u not in touched:
+                    fails.append(("c05:stored-object-vanished", "object %s disappeared (ops %s)" % (u, [it["op"] for it in items]), i))
+                continue
+            if a[u] == ob:
+                continue
+            diff = sorted(f for f in ob if a[u].get(f) != ob[f])
+            frozen = [f for f in diff if f in ("value", "otype", "format", "subtype", "date", "owner")]
+            if frozen:
+                fails.append(("c05:stored-field-changed:%s" % ",".join(frozen),
+                              "%s of object %s changed: %r -> %r" % (frozen, u, [ob[f] for f in frozen], [a[u][f] for f in frozen]), i))
+            elif u not in touched:
+                fails.append(("c05:stored-object-changed:%s" % ",".join(diff),
+                              "%s of object %s changed %r -> %r though no successful operation addressed it (ops %s)"
+                              % (diff, u, [ob[f] for f in diff], [a[u][f] for f in diff],
+                                 [(it["op"], it.get("uid")) for it in items]), i))
+        for u, tmpl in made.items():
+            if u in a and u not in touched and tmpl is not None and not tmpl.get("tnames"):
+                names, groups, appinfo = _supplied(tmpl)
+                got = a[u]
+                have_app = [list(x) if isinstance(x, (list, tuple)) else x for x in got.get("appinfo", [])]
+                if got.get("names") != names or got.get("groups") != groups or (appinfo and have_app != appinfo):
+                    fails.append(("c05:created-attributes-differ",
+                                  "object %s was made with names %r groups %r appinfo %r, store has %r %r %r"
+                                  % (u, names, groups, appinfo, got.get("names"), got.get("groups"), have_app), i))
+    return fails
